@@ -789,7 +789,7 @@ func staticCheck(c *caseT, cp *lib.Compiled) {
 				}
 			}
 		}
-		if drv != nil && (thorough || srcposAsked < 1500) {
+		if drv != nil && (srcposAsked < 1500 || (thorough && srcposAsked < 40000)) {
 			sm := lib.SrcMapSexp(fn.SourceMap)
 			for ip := 0; ip < len(fn.Instructions) && ip < 40; ip++ {
 				srcposAsked++
@@ -859,7 +859,7 @@ func main() {
 	}
 	rng := lib.NewRNG(f.Seed)
 	systematic(rng.Fork())
-	n := f.Scale(2000, 100000)
+	n := f.Scale(2000, 80000)
 	for i := 0; i < n; i++ {
 		g := newGen(rng.Fork())
 		checkCase(g.build())
